@@ -209,6 +209,12 @@ pub fn rust_fns(path: &str, src: &str) -> Vec<Value> {
                         walk(items, path, out);
                     }
                 }
+                syn::Item::Const(c) => out.push(json!({
+                    "file": path, "kind": "const", "name": c.ident.to_string(), "self_ty": Value::Null,
+                    "ty": toks(&*c.ty), "expr": expr(&c.expr), "line": line(c)})),
+                syn::Item::Static(c) => out.push(json!({
+                    "file": path, "kind": "const", "name": c.ident.to_string(), "self_ty": Value::Null,
+                    "ty": toks(&*c.ty), "expr": expr(&c.expr), "line": line(c)})),
                 _ => {}
             }
         }
